@@ -289,6 +289,43 @@ def handle (st : DState) (req : Json) : DState × Json :=
     match st.world with
     | none => (st, Json.mkObj [("bad", "boot first")])
     | some w => (st, answerQuery w.c ((req.getObjVal? "msg").toOption.getD .null))
+  | "probe" =>
+    -- a probe never changes the world: run the handler on the current store, then hand `reply` an
+    -- arbitrary result (undecodable data, no data, an error, any sequence) for the first tracked
+    -- sub-message it returned -- or, without a message, for an arbitrary reply id on the current store
+    match st.world with
+    | none => (st, Json.mkObj [("bad", "boot first")])
+    | some w =>
+      let rj := (req.getObjVal? "reply").toOption.getD .null
+      let res : ReplyResult :=
+        match rj.getObjVal? "ok", rj.getObjVal? "ok_raw", rj.getObjVal? "ok_nodata" with
+        | .ok v, _, _ => .ok (v.getNat?.toOption.getD 0)
+        | _, .ok (.str "ff"), _ => .okBadData
+        | _, .ok (.str "0807"), _ => .ok 7
+        | _, .ok _, _ => .ok 0              -- "", "1005": decodable, sequence field absent
+        | _, _, .ok _ => .okNoData
+        | _, _, _ => .err
+      let build := st.build
+      match req.getObjVal? "msg" with
+      | .ok msgJ =>
+        let fundsJ := (req.getObjVal? "funds").toOption.getD (Json.arr #[])
+        let sender := getStr req "sender"
+        match parseCoins fundsJ, parseExec msgJ with
+        | .ok funds, .ok m =>
+          let r := execute w.c (w.env (some 0)) { sender, funds } m
+          match r with
+          | .error e => (st, Json.mkObj [("execute", jErr e)])
+          | .ok (c', msgs) =>
+            match msgs.find? (·.replyAlways) with
+            | none => (st, Json.mkObj [("execute", jResult build (.ok msgs))])
+            | some sm =>
+              let rr := reply c' sm.id res
+              (st, Json.mkObj [("execute", jResult build (.ok msgs)), ("reply_id", jNat sm.id),
+                               ("reply", jResult build (rr.map (·.2)))])
+        | _, _ => (st, Json.mkObj [("execute", jErr .parse)])
+      | .error _ =>
+        let rr := reply w.c (getNatD req "id") res
+        (st, Json.mkObj [("reply", jResult build (rr.map (·.2)))])
   | op => (st, Json.mkObj [("bad", .str s!"unknown op {op}")])
 
 partial def loop (h : IO.FS.Stream) (out : IO.FS.Stream) (st : DState) : IO Unit := do
